@@ -33,6 +33,7 @@ assemblies by temperature on purpose).
 import os
 import types
 import traceback
+import copy
 import numpy as np
 from vmon import env, gen, drive, workloads as wl
 from vmon.harness import Result, CaseTimeout
@@ -1292,6 +1293,36 @@ def run_e2e(case, res):
             res.status('rejected', 'optimize: error exit')
         except Exception as e:   # noqa
             crashed(res, 'optimize', e, cons, key)
+        if not mixed and res.d['status'] == 'ok' and \
+                case['seed'][-1] % 2 == 0:
+            # a second optimisation in the SAME directory with other
+            # settings (group count, outlet target; results of the first
+            # one are still lying there and recycle_results is off): the
+            # same contracts watch it
+            P2 = copy.deepcopy(P)
+            ng0 = int(P['orificing']['n_groups'])
+            P2['orificing']['n_groups'] = max(1, ng0 - 1) if ng0 > 1 \
+                else ng0 + 1
+            P2['orificing']['bulk_coolant_temp'] = float(
+                P['orificing']['bulk_coolant_temp']) + 40.0
+            P2['orificing']['recycle_results'] = False
+            try:
+                inp2 = drive.read_input(gen.render(P2, d))
+                env.log_records()
+                with drive.quiet():
+                    o2 = Orificing(inp2)
+                    o2.optimize()
+                res.count('X1_result_or_error_exit')
+                res.tag('e2e:second_optimisation_same_directory')
+            except drive.Rejected:
+                res.tag('e2e:second_optimisation_rejected')
+            except SystemExit:
+                exit_is_logged(res, 'optimize (second, same directory)',
+                               key)
+                res.count('X1_result_or_error_exit')
+            except Exception as e:   # noqa
+                crashed(res, 'optimize (second, same directory)', e, cons,
+                        key)
     if mixed:
         res.count('e2emix_runs_with_binding_limit',
                   1 if cons.n_dp_binding else 0)
